@@ -81,6 +81,58 @@ PROPS = {
             "level_note": "trusted: Z3 (reference context) and the two 150-line spec builders; samples the pure extraction "
                           "function only at the boundary constants of its alphabet; reference 'unknown' = no verdict",
             "design_ref": "DESIGN.md 5 C26"},
+    "C06": {"engine": "hashcons", "quick": 20000, "thorough": 200000, "limit_s": 60,
+            "rule": "one case = one seeded history of build / forget / gc / rebuild / re-annotate / pickle-round-trip / "
+                    "backend-downsize events over <= 14 slots (the only strong references), specs over BV/Bool/FP/String "
+                    "trees with annotation lists drawn from StridedIntervalAnnotation / RegionAnnotation with colliding "
+                    "Python hashes (-1/-2, k and k+2^61-1), UninitializedAnnotation and user annotation classes (content "
+                    "hash, constant hash, equal-hash-other-class, relocatable), BVV with and without annotation kwargs; "
+                    "distinct = digest of the executed event/structure trace; non-trivial = at least 3 builds and 3 "
+                    "pairs of live expressions compared",
+            "level_text": "seeded exploration of construction / GC / pickling histories with two oracles after every event: "
+                          "what a spec builds has the deep structure it has when built alone (history independence), and "
+                          "for every pair of live expressions identity <=> deep structural equality (compared field by "
+                          "field, never through __eq__/__hash__)",
+            "level_note": "real: Base.__new__/make_like/_calc_hash/_bvv_cache/annotation API/pickle/CPython refcount+gc; "
+                          "the harness owns all strong references; trees of depth <= 4",
+            "design_ref": "DESIGN.md 5 C06",
+            "technique": "deterministic simulation: seeded build/drop/GC/pickle event histories over harness-owned "
+                         "references with structural-identity invariants after every event"},
+    "C19": {"engine": "gcguard", "quick": 40000, "thorough": 1500000, "limit_s": 60,
+            "rule": "one case = one seeded schedule of 1-3 actors (real threads under a baton scheduler; one of them may be "
+                    "the real main thread) each running a balanced program of nested _enter_z3/_exit_z3 pairs and "
+                    "condom'd calls (depth <= 3, some raising Z3Exception), GC initially enabled or disabled; a scheduling "
+                    "decision after every LINE event (thorough: also INSTRUCTION events) inside _enter_z3/_exit_z3/"
+                    "z3_condom/install/uninstall_sigint_handler; distinct = distinct digest of the (actor, code location) "
+                    "sequence; non-trivial = at least 2 actors and at least one context switch",
+            "level_text": "seeded exploration of thread interleavings of the real GC-guard code at line (and bytecode) "
+                          "granularity with the invariants checked after every scheduling step: a call in progress implies "
+                          "GC disabled, the counter never goes negative, at quiescence the GC flag is what it was, no "
+                          "deadlock; small configurations saturate but exhaustiveness is not claimed",
+            "level_note": "stubbed: _gc_lock (SimLock owned by the scheduler), the gc module flag (model object), log.error; "
+                          "real: _enter_z3, _exit_z3, condom, SIGINT handler install/uninstall on the real main thread",
+            "design_ref": "DESIGN.md 5 C19",
+            "phases": [{"opts": {"granularity": "line"}, "share": 0.8}, {"opts": {"granularity": "instruction"}, "share": 0.2}],
+            "technique": "deterministic simulation: baton-passing thread scheduler with sys.monitoring LINE/INSTRUCTION "
+                         "pre-emption points and a scheduler-owned lock, invariants after every step"},
+    "C20": {"engine": "threads", "quick": 500, "thorough": 60000, "limit_s": 120,
+            "rule": "one case = 2..8 real threads, each running its own seeded solver history (own solver objects, Solver/"
+                    "SolverCacheless/SolverComposite/SolverHybrid/SolverReplacement) over a shared pool of expression "
+                    "objects, under one seeded baton schedule (pre-emption at LINE events in claripy code with run-length "
+                    "budgets, at _gc_lock contention, at thread start/exit; some runs put one history on the real main "
+                    "thread); distinct = digest of the schedule's (thread, code location) sequence plus every thread's "
+                    "(op, answer) trace; non-trivial = at least 2 context switches and 2 checked queries",
+            "level_text": "seeded exploration of thread interleavings of the full claripy + Z3 stack: every answer of every "
+                          "thread is checked against that thread's own reference model (so every determined answer is "
+                          "the answer the history gives alone), no exception the single-thread machine would not accept, "
+                          "and a confinement monitor at the Z3 check seam requires the solver and all assumptions to "
+                          "belong to the calling thread's Z3 context",
+            "level_note": "a thread inside a Z3 C call holds the baton, so two Z3 calls never overlap in real time: data "
+                          "races inside libz3 are outside the simulator; _gc_lock is a scheduler-owned SimLock; the gc "
+                          "module is real; under-determined eval results are judged by validity, not by equality",
+            "design_ref": "DESIGN.md 5 C20",
+            "technique": "deterministic simulation: baton-passing thread scheduler (sys.monitoring LINE pre-emption in "
+                         "claripy code) over real threads running solver histories with per-thread reference oracles"},
 }
 for _p in PROPS.values():
     _p.setdefault("design_ref", "DESIGN.md 5")
@@ -160,11 +212,22 @@ def absorb(agg, res, hashseed):
         if len(agg["excluded_samples"]) < 5:
             agg["excluded_samples"].append({"excluded": res.get("excluded"), "clause": res["violation"]["clause"]})
     elif st in ("harness_error", "timeout", "crash"):
+        if st == "crash":
+            agg.setdefault("crashes", []).append({"idx": res.get("_id", res.get("idx")), "signal": res.get("signal"),
+                                                   "hashseed": hashseed})
         if len(agg["errors"]) < 20:
             agg["errors"].append({k: res.get(k) for k in ("status", "idx", "error", "signal", "wait_status")})
     elif "record" in res and len(agg["samples"]) < 6:
-        agg["samples"].append({"run_index": res.get("idx"), "config": res["record"]["config"],
-                               "ops": res["record"]["ops"][:25], "digest": d})
+        rec = res["record"]
+        sample = {"run_index": res.get("idx"), "config": rec["config"], "digest": d}
+        if "ops" in rec:
+            sample["ops"] = rec["ops"][:25]
+        for k in ("programs", "faults", "fault_enum", "threads"):
+            if k in rec:
+                sample[k] = rec[k]
+        if "switch_log" in res:
+            sample["switch_log"] = res["switch_log"][:30]
+        agg["samples"].append(sample)
 
 
 def merge_agg(a, b):
@@ -199,8 +262,9 @@ def write_replay(prop, recs, res, tag):
     os.makedirs(os.path.join(VERIF, "replays"), exist_ok=True)
     path = os.path.join(VERIF, "replays", f"{prop}-{tag}.json")
     eng = engine_mod(recs[-1]["engine"])
+    sig = ["process-crashed"] if res.get("status") == "crash" else eng.signature(res)
     out = {"property": prop, "engine": recs[-1]["engine"], "records": recs,
-           "expect": {"signature": eng.signature(res), "violation": res.get("violation")},
+           "expect": {"signature": sig, "violation": res.get("violation")},
            "repo_tree_digest": repo_tree_digest()}
     with open(path, "w") as f:
         json.dump(out, f, indent=1, sort_keys=True)
@@ -349,13 +413,16 @@ def check_main(prop, tier, seed=None, runs=None, opts=None):
         runs = int(os.environ.get("VERIF_RUNS", P[tier]))
     print(f"SEED {seed} property={prop} tier={tier} runs={runs} repo={REPO} tree={repo_tree_digest()}", flush=True)
     phases = P.get("phases")
-    if phases and not (opts and opts.get("profile")):
+    if phases and not (opts and (opts.get("profile") or opts.get("granularity"))):
         agg = None
         for ph in phases:
             n = max(1, int(runs * ph["share"]))
-            a = run_batch(prop, tier, seed, n, dict(opts or {}, profile=ph["profile"]))
+            po = dict(ph.get("opts", {}))
+            if "profile" in ph:
+                po["profile"] = ph["profile"]
+            a = run_batch(prop, tier, seed, n, dict(opts or {}, **po))
             for v in a["violations"]:
-                v["phase_opts"] = {"profile": ph["profile"]}
+                v["phase_opts"] = po
             agg = a if agg is None else merge_agg(agg, a)
         runs = agg["runs_expected"] = sum(max(1, int(runs * ph["share"])) for ph in phases)
     else:
@@ -364,6 +431,33 @@ def check_main(prop, tier, seed=None, runs=None, opts=None):
     known_lines, vio_lines = [], []
     if agg["violations"]:
         known_lines, vio_lines = handle_violations(prop, seed, dict(P.get('opts', {}), **(opts or {})), agg)
+    # a run that killed its worker process (segfault/abort inside claripy or libz3) is a violation if it does so again
+    # from a pristine process; the crash then IS the replayable failure
+    crash_confirmed = 0
+    for cr in (agg.get("crashes") or [])[:3]:
+        eng_name = P["engine"]
+        eng = engine_mod(eng_name)
+        popts = dict(P.get("opts", {}), **(opts or {}))
+        for ph in (P.get("phases") or [{}]):
+            o2 = dict(popts, **ph.get("opts", {}))
+            if "profile" in ph:
+                o2["profile"] = ph["profile"]
+            try:
+                rec = eng.generate(prop, seed, cr["idx"], o2)
+            except Exception:  # noqa: BLE001
+                continue
+            rec["config"]["hashseed"] = cr["hashseed"]
+            try:
+                res = exec_remote(eng_name, [rec], cr["hashseed"])
+            except GroupFailed:
+                res = {"status": "crash"}
+            if res.get("status") == "crash":
+                res["violation"] = {"clause": "process-crashed", "detail": {"signal": res.get("signal"), "op": "run",
+                                                                            "cls": eng_name}}
+                path = write_replay(prop, [rec], res, f"{seed}-{cr['idx']}-crash")
+                vio_lines.append(("VIOLATION", path, ["process-crashed"], res["violation"], 1))
+                crash_confirmed += 1
+                break
     # replays of recorded findings: an open one is re-confirmed (KNOWN-FINDING), a fixed one must stay fixed
     reg_lines = regression_replays(prop)
     for kind, text in reg_lines:
@@ -374,7 +468,7 @@ def check_main(prop, tier, seed=None, runs=None, opts=None):
             vio_lines.append((kind, *text) if isinstance(text, tuple) else (kind, text))
     wall = time.monotonic() - t0
     real_vios = [v for v in vio_lines if v[0] == "VIOLATION"]
-    harness_bad = agg["harness_error"] + agg["timeout"] + agg["crash"] + len(agg["group_failures"]) + \
+    harness_bad = agg["harness_error"] + agg["timeout"] + (agg["crash"] if not crash_confirmed else 0) + len(agg["group_failures"]) + \
         len([v for v in vio_lines if v[0] in ("HARNESS-ERROR", "NOT-REPRODUCED")])
     regression_count = len(reg_lines)
     level = P.get("level", "exploration")
@@ -423,6 +517,10 @@ def replay_main(prop, path):
     expect = rp.get("expect")
     recs = rp["records"]
     res = exec_remote(eng_name, recs, recs[-1]["config"].get("hashseed", 0))
+    if expect and expect.get("signature") == ["process-crashed"] and res.get("status") == "crash":
+        print(f"VIOLATION property={prop} replay={path}")
+        print(f"  process crashed again (signal {res.get('signal')})")
+        return 1
     if res.get("status") == "violation" and (expect is None or eng.signature(res) == expect["signature"]):
         print(f"VIOLATION property={prop} replay={path}")
         print("  " + json.dumps(res["violation"])[:1200])
